@@ -931,10 +931,16 @@ func (w *World) finishAtCalls() error {
 						name := ""
 						if f := cc.StaticCallee(); f != nil {
 							name = f.String()
+							if o := f.Origin(); o != nil {
+								name = o.String() // an instantiation of a generic function is known by the generic's name
+							}
 						} else if cc.IsInvoke() {
 							name = cc.Method.Name()
 						} else {
 							name = funcValueName(cc.Value)
+						}
+						if os.Getenv("GOVC_DEBUG_SITES") != "" {
+							fmt.Fprintf(os.Stderr, "site-scan %s: call %q\n", c.Key, name)
 						}
 						if name == ac.Callee || strings.HasSuffix(name, "."+short) || name == short {
 							sites = append(sites, in.Pos())
